@@ -207,6 +207,11 @@ static rc::Gen<HCase> genHistory(int secureOnly, int datasetPct) {
 		// quick run reached it under one seed in four (measured by reverting the fix), with the scenario prologue under every seed tried.
 		if (scen % 3 == 0) { c.cmds[2].b = scen % 6; c.cmds.push_back(Cmd{Hash, 0, scen, 0}); c.cmds.push_back(Cmd{ReleaseBoundCache, 0, 0, 0}); c.cmds.push_back(Cmd{AllocInitCacheFor, 0, scen & 1, 1}); c.cmds.push_back(Cmd{SetCacheLast, 0, 0, 0}); c.cmds.push_back(Cmd{Hash, 0, scen + 1, 0}); }
 		bool ds = dsRoll < datasetPct;
+		// dataset histories: the prologue also builds the dataset, creates a fast-mode VM of a generated class on it and hashes before and
+		// after two version switches (state that a compiled fast VM caches across setFlagV2/clearFlagV2 would otherwise need a lucky draw:
+		// a quick run has only a handful of dataset histories because each costs a 2 GiB initialisation)
+		if (ds) { c.cmds.push_back(Cmd{AllocDataset, 0, 0, 0}); c.cmds.push_back(Cmd{InitDataset, 0, 0, 0}); c.cmds.push_back(Cmd{CreateVm, 3, scen / 3, scen & 1});
+			const int fv = 1; c.cmds.push_back(Cmd{Hash, fv, scen, 0}); c.cmds.push_back(Cmd{(scen & 1) ? ClearV2 : SetV2, fv, 0, 0}); c.cmds.push_back(Cmd{Hash, fv, scen + 1, 0}); c.cmds.push_back(Cmd{(scen & 1) ? SetV2 : ClearV2, fv, 0, 0}); c.cmds.push_back(Cmd{Hash, fv, scen + 2, 0}); }
 		for (auto& k : cmds) { if (!ds && (k.op == AllocDataset || k.op == InitDataset)) k.op = Hash; c.cmds.push_back(k); }
 		static const int pats[] = {0xA5, 0xFF, 0x00, 0x7F, 0xDD};
 		c.pattern = pats[pattern]; c.reuse = reuse;
